@@ -24,6 +24,12 @@ Clause labels (sentence of the property each one stands for):
   malformed_name_rejected  "Scoped names containing internal whitespace, empty components
                            or misplaced separators are rejected rather than silently
                            repaired": parser and parse_config raise, nothing gets bound.
+                           Kinds `continuation_inside:*`: the internal whitespace is a
+                           backslash-newline between two tokens of the name (after or before
+                           a '/' or '.'), with 0-8 blanks before the backslash and the
+                           continuation line indented by 0..24 columns; a continuation does
+                           not make the name legal, so each of them must be refused with the
+                           SyntaxError of the other malformed names, at every indentation.
 """
 import ast
 import os
@@ -40,7 +46,11 @@ BOUNDS = ('statement lists of 1..6 statements over 9 statement kinds (binding wi
           'them to depth 2; 8 named layouts (plain, blank_lines, comments, continuations, '
           'spacing, block, block_messy, everything) with seeded decoration, each with/without '
           'final newline; 31 malformed-name patterns (inner blank x 3 blank kinds, empty '
-          'component, misplaced separator) x 6 positions = 185 texts; 3 import-alias pairs x '
+          'component, misplaced separator) x 6 positions = 185 texts; a backslash-newline '
+          'inside a scoped name: 19 (position, break point) patterns x 5 widths of blanks before '
+          'the backslash x continuation indents 0..24 = 2375 texts, plus 150 (quick) / 2000 '
+          '(thorough) seeded ones (1-3 scope parts, 1-3 selector parts, any break point, '
+          'indent of blanks or tabs); 3 import-alias pairs x '
           '16 blank-line offsets. quick: 1500 lists (one layout each, all 8 for the first 60); '
           'thorough: 8000 lists x 8 layouts.')
 EXHAUSTIVE = {'quick': False, 'thorough': False}
@@ -134,6 +144,10 @@ def _layout(name, rng):
 def cases(tier, rng):
   for kind, text in _bad_names():
     yield {'mode': 'bad', 'kind': kind, 'text': text}
+  for kind, text in _broken_by_continuation():
+    yield {'mode': 'bad', 'kind': kind, 'text': text}
+  for _ in range(150 if tier == 'quick' else 2000):
+    yield dict(zip(('kind', 'text'), _seeded_continuation(rng)), mode='bad')
   # the same module imported twice in the same style under two aliases
   for pair in (['from os import path', 'from os import path as pth'],
                ['import os.path as osp', 'import os.path'],
@@ -180,6 +194,50 @@ def _bad_names():
       seen.add(item[1])
       uniq.append(item)
   return uniq
+
+
+# (position, text up to the break, text after it): the break sits between two tokens of one
+# scoped name -- after or before a '/' or a '.'
+_BREAKS = [
+    ('key', 'a/', 'x.p = 1'), ('key', 'a', '/x.p = 1'), ('key', 'cm.', 'x.p = 1'),
+    ('key', 'cm', '.x.p = 1'), ('key', 'a/b/', 'cm.x.p = 1'), ('key', 'a/cm.x.', 'p = 1'),
+    ('block', 'a/', 'x:\n  p = 1'), ('block', 'cm.', 'x:\n  p = 1'),
+    ('macro_def', 'a/', 'm = 1'), ('macro_def', 'a', '/m = 1'),
+    ('ref', 'x.p = @a/', 'y'), ('ref', 'x.p = @cm.', 'y'), ('ref', 'x.p = @a', '/y'),
+    ('ref', 'x.p = @a/cm', '.y'),
+    ('ref_call', 'x.p = [@a/', 'y()]'), ('ref_call', 'x.p = [@cm.', 'y()]'),
+    ('macro_use', 'x.p = %a/', 'm'), ('macro_use', 'x.p = %a', '/m'), ('macro_use', 'x.p = %cm.', 'm'),
+]
+
+
+def _broken_by_continuation():
+  for pos, head, tail in _BREAKS:
+    for pad in (0, 1, 2, 3, 8):          # blanks between the last token and the backslash
+      for width in range(25):            # indentation of the continuation line
+        yield ('continuation_inside:' + pos,
+               '%s%s\\\n%s%s\n' % (head, ' ' * pad, ' ' * width, tail))
+
+
+def _seeded_continuation(rng):
+  tokens = []
+  for part in rng.sample(['a', 'b', 'sc', 'train', 'eval_1'], rng.randint(0, 3)):
+    tokens += [part, '/']
+  for part in rng.sample(['cm', 'other', 'pkg'], rng.randint(0, 2)):
+    tokens += [part, '.']
+  pos = rng.choice(['key', 'block', 'macro_def', 'ref', 'ref_call', 'macro_use'])
+  tokens.append('m' if pos.startswith('macro') else 'x')
+  if pos == 'key':
+    tokens += ['.', 'p']
+  if len(tokens) == 1:
+    tokens = ['a', '/'] + tokens
+  cut = rng.randint(1, len(tokens) - 1)
+  indent = ' ' * rng.randint(0, 24) if rng.random() < 0.8 else '\t' * rng.randint(1, 3)
+  name = (''.join(tokens[:cut]) + rng.choice(['', ' ', '  ', '\t', ' ' * rng.randint(3, 12)]) + '\\\n' +
+          indent + ''.join(tokens[cut:]))
+  lead = rng.choice(['', '', '\n', '# c\n', '\n\n# x.p = 9\n'])
+  text = {'key': '%s = 1\n', 'block': '%s:\n  p = 1\n', 'macro_def': '%s = 1\n', 'ref': 'x.p = @%s\n',
+          'ref_call': 'x.p = [@%s()]\n', 'macro_use': 'x.p = %%%s\n'}[pos] % name
+  return 'continuation_inside:' + pos, lead + text
 
 
 # ---------------------------------------------------------------- rendering
@@ -475,17 +533,25 @@ def _check_bad(case):
   fails = []
   text = case['text']
   sig = 'kind=%s' % case['kind']
+  strict = case['kind'].startswith('continuation_inside')   # these must be a SyntaxError
+  raised = []
   try:
     stream = _observed_stream(text)
     fails.append({'clause': 'malformed_name_rejected', 'expected': 'parser raises',
                   'observed': _short(stream), 'signature': 'malformed_name_rejected %s parser_accepted' % sig})
-  except Exception:   # pylint: disable=broad-except
-    pass
+  except Exception as e:   # pylint: disable=broad-except
+    raised.append(e)
   try:
     gin.parse_config(text)
     accepted = True
-  except Exception:   # pylint: disable=broad-except
+  except Exception as e:   # pylint: disable=broad-except
     accepted = False
+    raised.append(e)
+  other = sorted({type(e).__name__ for e in raised if not isinstance(e, SyntaxError)})
+  if strict and other:
+    fails.append({'clause': 'malformed_name_rejected', 'expected': 'SyntaxError',
+                  'observed': _short([_exc(e) for e in raised]),
+                  'signature': 'malformed_name_rejected %s raised=%s' % (sig, ','.join(other))})
   bound = gin.config_str()
   if accepted or bound.strip():
     fails.append({'clause': 'malformed_name_rejected',
